@@ -5,8 +5,8 @@
    the new instance's array as np.full(len(span), None, dtype=object) and then, for every period that exists in both
    spans, assigns a deep copy of the original's cell (fix 28b2a9a; before it the REFERENCE to the same Trace object was
    assigned — DESIGN.md finding #21 seen from the tracer).  Periods that are new keep None.  copy() deep-copies the
-   array: every Trace object is duplicated.  trace_t then either replaces a cell by a NEW Trace (empty Trace or reset=True) or appends IN PLACE to
-   the object the cell refers to; on a None cell `None.is_empty()` raises AttributeError. *)
+   array: every Trace object is duplicated.  trace_t then either replaces a cell by a NEW Trace or appends IN PLACE to the
+   object the cell refers to (see trace_t_cells). *)
 From Coq Require Import ZArith List Bool.
 Import ListNotations.
 Require Import PyBase Tracer TracerNames.
@@ -42,20 +42,30 @@ Section Reindex.
     | Some a :: r => let '(cs, h') := copy_cells r (h ++ [tderef h a]) in (Some (length h) :: cs, h')
     end.
 
-  (* one trace_t call (names chosen, values `res` gathered) on an instance whose `_trace` array is `cells` *)
+  (* one trace_t call (names chosen, values `res` gathered) on an instance whose `_trace` array is `cells`.
+     `current = self['trace'][t]`; a FRESH Trace object is put into the cell when current is not a Trace (fix 3b0200f:
+     the None of a period added by reindex()), is empty, reset=True, or was recorded for other names (fix 7d04ae5);
+     otherwise the snapshot is appended IN PLACE to the object the cell refers to. *)
   Definition trace_t_cells (names : list nat) (reset : bool) (p : nat) (lab : tlabel) (res : list num)
              (cells : list tcell) (h : theap) : (list tcell * theap) * option exn :=
+    let fresh := let '(new, e) := append_trace num (mkTrace names [] []) lab res in
+                 ((upd p (Some (length h)) cells, h ++ [new]), e) in
     match nth p cells None with
-    | None => ((cells, h), Some AttributeError)            (* 'NoneType' object has no attribute 'is_empty' *)
+    | None => fresh
     | Some r =>
         let old := tderef h r in
-        if is_empty num old || reset then
-          let '(new, e) := append_trace num (mkTrace names [] []) lab res in
-          ((upd p (Some (length h)) cells, h ++ [new]), e)        (* self['trace'][t] = Trace(names): a new object *)
-        else
-          let '(new, e) := append_trace num old lab res in
-          ((cells, upd r new h), e)                                 (* in place: every holder of r sees it *)
+        if afresh num old reset names then fresh
+        else let '(new, e) := append_trace num old lab res in ((cells, upd r new h), e)   (* every holder of r sees it *)
     end.
+
+  (* before fix 3b0200f: `None.is_empty()` raised AttributeError *)
+  Definition trace_t_cells_none_raises (names : list nat) (reset : bool) (p : nat) (lab : tlabel) (res : list num)
+             (cells : list tcell) (h : theap) : (list tcell * theap) * option exn :=
+    match nth p cells None with
+    | None => ((cells, h), Some AttributeError)
+    | Some _ => trace_t_cells names reset p lab res cells h
+    end.
+
   (* the value-level view of the array (what Tracer.v calls `traces`): defined for every cell, meaningful when no cell is None *)
   Definition view (cells : list tcell) (h : theap) : traces num :=
     map (fun c => match c with Some r => tderef h r | None => empty_trace num end) cells.
@@ -64,7 +74,7 @@ Section Reindex.
   Definition trace_t_core (names : list nat) (reset : bool) (p : nat) (lab : tlabel) (res : list num) (tr : traces num)
     : traces num * option exn :=
     let old := nth p tr (empty_trace num) in
-    let cur := if is_empty num old || reset then mkTrace names [] [] else old in
+    let cur := if afresh num old reset names then mkTrace names [] [] else old in
     let '(new, e) := append_trace num cur lab res in
     (upd p new tr, e).
 End Reindex.
